@@ -906,3 +906,71 @@ Proof.
   - unfold h1. apply hget_app_new.
   - unfold h1. rewrite app_length. simpl. lia.
 Qed.
+
+(* ====================================================================== strings: split / join / replace *)
+Lemma join_with_cons : forall sep p t, t <> [] -> join_with sep (p :: t) = p ++ sep ++ join_with sep t.
+Proof. intros sep p [|q t] H; [congruence|reflexivity]. Qed.
+
+Lemma split_go_nonempty : forall sep s cur k, split_go sep s cur k <> [].
+Proof.
+  induction s as [|c t IH]; intros cur k; simpl; [discriminate|].
+  destruct k; [destruct (str_prefix sep (c :: t)); [discriminate|apply IH] | apply IH].
+Qed.
+
+Lemma str_prefix_app : forall p s, str_prefix p s = true -> s = p ++ skipn (length p) s.
+Proof.
+  induction p as [|x p IH]; intros [|y s] H; simpl in *; try discriminate; auto.
+  apply andb_true_iff in H. destruct H as [E H]. apply N.eqb_eq in E. subst. f_equal. apply IH, H.
+Qed.
+
+Lemma split_go_join : forall sep s cur k, sep <> [] ->
+  join_with sep (split_go sep s cur k) = rev cur ++ skipn k s.
+Proof.
+  intros sep s cur k NE. revert cur k. induction s as [|c t IH]; intros cur k.
+  - simpl. rewrite skipn_nil, app_nil_r. reflexivity.
+  - destruct k as [|k]; [|simpl; apply IH].
+    cbn [split_go]. destruct (str_prefix sep (c :: t)) eqn:P.
+    + rewrite join_with_cons by apply split_go_nonempty. rewrite IH.
+      destruct sep as [|x sep']; [congruence|].
+      apply str_prefix_app in P.
+      replace (length (x :: sep') - 1)%nat with (length sep') by (simpl; lia).
+      change (skipn (length (x :: sep')) (c :: t)) with (skipn (length sep') t) in P.
+      change (skipn 0 (c :: t)) with (c :: t). rewrite P. reflexivity.
+    + rewrite IH. simpl. rewrite <- app_assoc. reflexivity.
+Qed.
+
+(* joining the pieces of a split with the separator gives the string back *)
+Theorem split_join : forall s sep, sep <> [] -> join_with sep (py_split s sep) = s.
+Proof. intros. unfold py_split. rewrite split_go_join by auto. reflexivity. Qed.
+
+(* replace = split on the old text, join with the new text *)
+Lemma replace_go_split : forall old new s cur k,
+  rev cur ++ replace_go old new s k = join_with new (split_go old s cur k).
+Proof.
+  intros old new s. induction s as [|c t IH]; intros cur k.
+  - simpl. apply app_nil_r.
+  - destruct k as [|k]; [|simpl; apply IH].
+    cbn [split_go replace_go]. destruct (str_prefix old (c :: t)) eqn:P.
+    + rewrite join_with_cons by apply split_go_nonempty. rewrite <- IH. reflexivity.
+    + rewrite <- IH. simpl. rewrite <- app_assoc. reflexivity.
+Qed.
+Theorem replace_is_split_join : forall s old new, old <> [] -> py_replace s old new = join_with new (py_split s old).
+Proof.
+  intros s old new NE. unfold py_replace, py_split. destruct old; [congruence|].
+  rewrite <- replace_go_split. reflexivity.
+Qed.
+
+Theorem stringSplit_spec : forall h s sep, sep <> [] ->
+  lib (U "stringSplit") [VStr s; VStr sep] h = (LOk (VArr (length h)), h ++ [CArr (map VStr (py_split s sep))])
+  /\ join_with sep (py_split s sep) = s.
+Proof.
+  intros h s sep NE. split; [|apply split_join; auto].
+  open_lib (U "stringSplit"). table_entry (U "stringSplit") k_stringSplit. validate_step. unfold k_stringSplit.
+  destruct sep; [congruence|]. reflexivity.
+Qed.
+Theorem stringReplace_spec : forall h s old new, old <> [] ->
+  lib (U "stringReplace") [VStr s; VStr old; VStr new] h = (LOk (VStr (join_with new (py_split s old))), h).
+Proof.
+  intros h s old new NE. open_lib (U "stringReplace"). table_entry (U "stringReplace") k_stringReplace. validate_step.
+  unfold k_stringReplace. rewrite replace_is_split_join by auto. reflexivity.
+Qed.
